@@ -79,9 +79,13 @@ Pred(e, r) ==
     [] e = "sequence.Len() < 6 || sequence.Count() > 10" -> SLen(r) < 6 \/ Count(r) > 10
 
 (* value expressions (obiannotate -S KEY=EXPR): tagged value on the record being edited *)
-KnownExpr == {"1", "7", "\"lit\"", "len(sequence)", "sequence.Id()"}
+KnownExpr == {"1", "7", "\"lit\"", "len(sequence)", "sequence.Id()", "annotations.sample"}
+(* an expression that reads an attribute cannot be evaluated on a record that lacks it: the record is then    *)
+(* not written at all (a warning is logged) - never written without the requested attribute                  *)
+Evaluable(e, r) == e # "annotations.sample" \/ Has(r, "sample")
 Expr(e, r) ==
   CASE e = "1"             -> IntVal(1)
+    [] e = "annotations.sample" -> r.attrs["sample"]
     [] e = "7"             -> IntVal(7)
     [] e = "\"lit\""       -> StrVal("lit")
     [] e = "len(sequence)" -> IntVal(SLen(r))
